@@ -6,6 +6,7 @@ Proved once for every element type `T` and every math dictionary `AM`.
 import CfavmlModel.Gen.ImplFallback
 import CfavmlModel.Lemmas.Defaults
 import CfavmlModel.Spec.Scalar
+import CfavmlModel.Spec.Backend
 
 namespace Cfavml.Thm.C13Fallback
 variable {T : Type} (E : Env) (AM : Math T) (sz : Nat)
@@ -62,6 +63,10 @@ exactly when it is outside the slice; the dense forms are eight of those. -/
 theorem mem (hsz : 0 < sz) : MemFaithful (Fallback.inst E AM sz) 1 lanes1 :=
   memFaithful_of_defaults (core E AM sz hsz) (usesDefaults E AM sz)
 
+/-- **C13 (Fallback, broadcast).** `filled` is the value itself; the dense form is eight copies. -/
+theorem bcast : BroadcastFaithful (Fallback.inst E AM sz) 1 lanes1 :=
+  broadcastFaithful_of_default (E := E) (by omega) (fun v => ⟨v, rfl, fun _ _ => rfl⟩) rfl
+
 variable {S : ScalarSpec T} (MFa : MathFaithful AM S)
 include MFa
 
@@ -89,5 +94,36 @@ theorem min : Lanewise2 1 lanes1 S.cmpMin (fun _ => True) (Fallback.inst E AM sz
   lanewise2_of_applyDense (by omega) (fun x y _ => ⟨S.cmpMin x y, by
     show Fallback.min E AM sz x y = _
     unfold Fallback.min; rw [MFa.cmp_min], fun _ _ => rfl⟩)
+
+
+/-- the horizontal fold of a one-lane register is its lane -/
+def hfold1 (f : Nat → T) : T := f 0
+
+/-- **C13 (Fallback, reductions).** zeroed accumulators are zero, `fmadd` is `x*y + acc` (unfused) in every
+lane, the dense forms are the single form on the eight fields, the roll-ups are the lane-wise tree of the
+eight registers, and the horizontal folds return the single lane. -/
+theorem reduce : ReduceFaithful (Fallback.inst E AM sz) 1 lanes1 S (fun x y acc => S.add (S.mul x y) acc)
+    hfold1 hfold1 hfold1 := by
+  have hadd := add E AM sz MFa
+  have hmul := mul E AM sz MFa
+  have hmax := max E AM sz MFa
+  have hmin := min E AM sz MFa
+  refine ⟨?_, ?_, ⟨?_, fun r => rfl⟩, ⟨?_, fun r => rfl⟩, ⟨?_, fun r => rfl⟩⟩
+  · refine ⟨DenseLane.copy S.zero, ?_, ?_⟩
+    · show Fallback.zeroed_dense E AM sz = _
+      unfold Fallback.zeroed_dense SimdRegisterDefault.zeroed_dense Fallback.zeroed
+      rw [MFa.zero]; rfl
+    · intro k hk
+      rw [dlanes_copy (by omega) _ k hk]; rfl
+  · exact lanewise3_of_mul_add hmul hadd (fun x y z => rfl) (fun x y z => by
+      show Fallback.fmadd_dense E AM sz x y z = _
+      unfold Fallback.fmadd_dense
+      congr 1)
+  · intro d
+    exact rollup8_lanewise (fun x y => hadd.single x y (fun _ _ => trivial)) d
+  · intro d
+    exact rollup8_lanewise (fun x y => hmax.single x y (fun _ _ => trivial)) d
+  · intro d
+    exact rollup8_lanewise (fun x y => hmin.single x y (fun _ _ => trivial)) d
 
 end Cfavml.Thm.C13Fallback
